@@ -542,9 +542,34 @@ def gate_targets(nd: dict) -> list[str]:
 EXC_KINDS = ["plain", "plain", "noargs", "typeerror_kw", "keyerror", "valueerror"]
 
 
+def gen_sibling_wrappers(rng: random.Random) -> dict:
+    """One sub-graph template (ta: p -> y; tb: y, q -> z) mounted 2-3 times side by side, each wrapper renaming the template's
+    input p and outputs y, z to its own names (optionally the very same inner Graph object is reused); a final node reads every
+    wrapper's z. All wrappers are ready in the same step and finish in any order."""
+    k = rng.randint(2, 3)
+    share = rng.random() < 0.5
+    tmpl = {"name": "T", "nodes": [{"kind": "fn", "name": "ta", "params": [{"name": "p"}], "outs": ["y"]}, {"kind": "fn", "name": "tb", "params": [{"name": "y"}, {"name": "q"}], "outs": ["z"]}], "order": [0, 1]}
+    nodes: list[dict] = []
+    ext = ["q"]
+    for j in range(k):
+        ren_out = {"y": f"y{j}", "z": f"z{j}"} if (j > 0 or rng.random() < 0.7) else {}
+        # (unshared copies get their own function names so that the harness can tell the bodies apart)
+        inner = tmpl if share else {"name": f"T{j}", "nodes": [dict(tmpl["nodes"][0], name=f"ta{j}"), dict(tmpl["nodes"][1], name=f"tb{j}")], "order": [0, 1]}
+        nd = {"kind": "graph", "name": f"W{j}", "graph": inner, "renames": [{"inputs": {"p": f"p{j}"}, "outputs": ren_out}] if ren_out else [{"inputs": {"p": f"p{j}"}}]}
+        if share:
+            nd["share"] = "T"
+        nodes.append(nd)
+        ext.append(f"p{j}")
+    zs = [(f"z{j}" if nodes[j]["renames"][0].get("outputs") else "z") for j in range(k)]
+    nodes.append({"kind": "fn", "name": "fin", "params": [{"name": z} for z in zs], "outs": ["fz"]})
+    order = list(range(len(nodes)))
+    rng.shuffle(order)
+    return {"name": "top", "nodes": nodes, "order": order, "ext": ext, "lists": [], "seeds": [], "siblings_program": True}
+
+
 def gen_api(rng: random.Random) -> dict:
     """Which spelling of the public API builds the program (all are equivalent by documentation)."""
-    return {"decorators": rng.random() < 0.3, "explicit_edges": rng.random() < 0.25, "wrap_async": rng.random() < 0.2}
+    return {"decorators": rng.random() < 0.3, "explicit_edges": rng.random() < 0.25, "wrap_async": rng.random() < 0.2, "siblings": rng.random() < 0.3}
 
 
 def with_api(g: dict, api: dict | None) -> dict:
@@ -561,6 +586,8 @@ def with_api(g: dict, api: dict | None) -> dict:
             gr["decorators"] = True
         if api.get("explicit_edges"):
             gr["explicit_edges"] = True
+        if api.get("siblings"):
+            gr["siblings"] = True  # decoy graphs are derived from the same objects (parameter sweeps): they must not influence this one
         for nd in gr["nodes"]:
             if nd["kind"] == "graph":
                 walk(nd["graph"])
